@@ -181,10 +181,10 @@ Json EngineGen::generate(uint64_t seed, const runner::GenOptions& opt, const Eng
         d.mod = (unsigned)rng.range(1, 2);
         d.rem = 0;
         d.k = to;
-        d.t = REQ;
+        d.t = useSingle && rng.chance(300) ? SINGLE : REQ;
         r.dyn.push_back(d);
       } else {
-        r.reqs.push_back({to, rng.chance(200) ? FOLLOW : REQ});
+        r.reqs.push_back({to, rng.chance(200) ? FOLLOW : useSingle && rng.chance(300) ? SINGLE : REQ});
       }
     }
   }
@@ -328,6 +328,11 @@ Json EngineGen::generate(uint64_t seed, const runner::GenOptions& opt, const Eng
       Json c = Json::obj();
       c.set("kind", (int64_t)rng.range(1, 3)).set("n", (int64_t)rng.below(40)).set("yields", (int64_t)rng.below(30)).setb("twice", rng.chance(200));
       op.set("cancel", c);
+    } else if (db && rng.chance(250)) {
+      // one call of the BuildDB interface fails during this build (the engine's own seam: a client may attach any BuildDB):
+      // the engine cancels the build from inside, with completions possibly queued up - it must still come back
+      static const char* kinds[] = {"set_result", "set_result", "set_result", "lookup", "build_started", "set_iteration"};
+      op.set("db_fault", Json::obj().set("kind", kinds[rng.below(6)]).set("nth", (int64_t)rng.below(8)));
     }
     hist.push(op);
     builds++;
@@ -546,6 +551,20 @@ struct Run : public BuildEngineDelegate, public basic::ExecutionQueueDelegate {
   int64_t vfsInWindow = 0;      // VFS calls counted in the window
   bool windowOpen = false;
   bool killed = false;
+  // one failing call of the BuildDB interface (db_fault on a build op)
+  struct DbFault {
+    bool armed = false, fired = false;
+    std::string kind;
+    int nth = 0, seen = 0;
+  } dbFault;
+  bool stopRun = false;
+  bool planHasDbFault = false;
+  bool dbFaultHit(const char* kind) {
+    if (!dbFault.armed || dbFault.fired || dbFault.kind != kind) return false;
+    if (dbFault.seen++ != dbFault.nth) return false;
+    dbFault.fired = true;
+    return true;
+  }
   int64_t firstWriteAt = -1;    // index of the first write call in the window
   std::unique_ptr<simfs::FS> survivor;
   std::map<uint64_t, int> epochBuild;
@@ -613,6 +632,9 @@ struct Run : public BuildEngineDelegate, public basic::ExecutionQueueDelegate {
       if (clause == "C01.1" || clause == "C01.2") clause = "C04.5";
       else if (clause == "C03.2") clause = "C04.4";
     }
+    // after an injected database failure only "the build came back and left nothing behind" is judged: what the engine
+    // believes about rules whose stored result it could not read or write is not modelled
+    if (dbFault.fired && clause != "C06.2" && clause != "C05.3") return;
     bool mine = clause.compare(0, property.size() + 1, property + ".") == 0;
     if (mine) {
       if (!verdict) {
@@ -997,13 +1019,17 @@ void Run::cycleDetected(const std::vector<Rule*>& items) {
     std::map<std::string, std::set<std::string>> g;
     std::map<int, std::set<int>> pe;
     potentialEdges(prog, &pe);
+    // A wait-for edge is either a request made by a task that runs in this build, or the scan of a recorded dependency -
+    // and single-use dependencies are dropped from a record before it is scanned.
     for (auto& e : pe)
       for (int t : e.second)
-        if (prog.get(e.first) && prog.get(t)) g[prog.get(e.first)->key].insert(prog.get(t)->key);
+        if (prog.get(e.first) && prog.get(t) && createCount.count(prog.get(e.first)->key)) g[prog.get(e.first)->key].insert(prog.get(t)->key);
     for (auto& e : mem)
-      for (auto& d : e.second.deps) g[e.first].insert(d.key);
+      for (auto& d : e.second.deps)
+        if (!d.singleUse) g[e.first].insert(d.key);
     for (auto& e : dbCommitted)
-      for (auto& d : e.second.deps) g[e.first].insert(d.key);
+      for (auto& d : e.second.deps)
+        if (!d.singleUse) g[e.first].insert(d.key);
     // DFS cycle detection
     std::map<std::string, int> color;
     bool cyc = false;
@@ -1238,6 +1264,8 @@ void Run::load() {
     killAt = kj->getn("n", -1);
   }
   ignoreCancel = cfg->getb("ignore_cancel");
+  for (auto& op : plan.geta("history"))
+    if (op.find("db_fault")) planHasDbFault = true;
   capi = cfg->getb("capi");
   zeroSignatures = cfg->getb("zero_signatures");
   restartEveryBuild = cfg->getb("restart_every_build");
@@ -1440,6 +1468,32 @@ void Run::opForeignSchema() {
   sqlite3_close(h);
 }
 
+// The real SQLite database behind a wrapper that can make one call of the BuildDB interface fail, the way the engine sees
+// any database failure: a false return and a message.
+class FaultyDB : public BuildDB {
+  std::unique_ptr<BuildDB> impl;
+  Run* run;
+  bool fail(const char* kind, std::string* error_out) {
+    if (!run->dbFaultHit(kind)) return false;
+    if (error_out) *error_out = std::string("simulated database failure (") + kind + ")";
+    run->ctr()[std::string("db_fault_") + kind]++;
+    return true;
+  }
+
+public:
+  FaultyDB(std::unique_ptr<BuildDB> d, Run* r) : impl(std::move(d)), run(r) {}
+  void attachDelegate(BuildDBDelegate* d) override { impl->attachDelegate(d); }
+  Epoch getCurrentEpoch(bool* ok, std::string* e) override { return impl->getCurrentEpoch(ok, e); }
+  bool setCurrentIteration(uint64_t v, std::string* e) override { return fail("set_iteration", e) ? false : impl->setCurrentIteration(v, e); }
+  bool lookupRuleResult(KeyID id, const KeyType& k, Result* r, std::string* e) override { return fail("lookup", e) ? false : impl->lookupRuleResult(id, k, r, e); }
+  bool setRuleResult(KeyID id, const Rule& rule, const Result& r, std::string* e) override { return fail("set_result", e) ? false : impl->setRuleResult(id, rule, r, e); }
+  bool buildStarted(std::string* e) override { return fail("build_started", e) ? false : impl->buildStarted(e); }
+  void buildComplete() override { impl->buildComplete(); }
+  bool getKeys(std::vector<KeyType>& k, std::string* e) override { return impl->getKeys(k, e); }
+  bool getKeysWithResult(std::vector<KeyType>& k, std::vector<Result>& r, std::string* e) override { return impl->getKeysWithResult(k, r, e); }
+  void dump(raw_ostream& os) override { impl->dump(os); }
+};
+
 void Run::ensureEngine() {
   if (!engine && !cengine && useDb) {
     // the next attach compares the requested client version with the one the file on disk was created under
@@ -1490,6 +1544,7 @@ void Run::ensureEngine() {
   if (useDb) {
     std::string err;
     auto db = createSQLiteBuildDB(dbPath, clientVersion, /*recreateUnmatchedVersion=*/true, &err);
+    if (db && planHasDbFault) db.reset(new FaultyDB(std::move(db), this));
     if (!db || !engine->attachDB(std::move(db), &err)) {
       attachFailed = true;
       attachError = err;
@@ -1684,6 +1739,14 @@ void Run::opBuild(const Json& op) {
   ev(EV_BUILD_BEGIN, targetKey);
   inBuild = true;
   ctr()["builds"]++;
+  dbFault = DbFault();
+  if (const Json* df = op.find("db_fault")) {
+    if (useDb && !capi && !attachFailed) {
+      dbFault.armed = true;
+      dbFault.kind = df->gets("kind");
+      dbFault.nth = (int)df->getn("nth");
+    }
+  }
 
   // canceller threads
   if (cancel.on && (cancel.kind == 1 || cancel.kind == 2)) {
@@ -1724,6 +1787,7 @@ void Run::opBuild(const Json& op) {
     copy = engine->build(KeyType(targetKey));
   }
   inBuild = false;
+  dbFault.armed = false;
   intruder.reset();
   cancelAbort = true;
   cancelGo = true;
@@ -1738,6 +1802,24 @@ void Run::opBuild(const Json& op) {
       crashAndRecover();
       return;
     }
+  }
+  if (dbFault.fired) {
+    // What the database and the engine hold after a failed database call is not modelled.  Judged here: the build came back
+    // (the scheduler reports a hang otherwise), every task object it created is gone, no queue thread is left.  The
+    // history ends here.
+    ctr()["builds_with_db_fault"]++;
+    if (!errorReported) ctr()["db_fault_not_reported_as_error"]++;
+    if (!copy.empty()) ctr()["db_fault_build_succeeded_anyway"]++;
+    ev(EV_BUILD_END, targetKey, "db-fault", 0);
+    if (openTasks != 0) viol("C06.2", std::to_string(openTasks) + " task object(s) created by the build were not destroyed when it returned after a database failure");
+    int stray = sim::live_with_role_prefix("queue");
+    if (stray) viol("C06.2", std::to_string(stray) + " execution-queue thread(s) still alive after build() returned from a database failure");
+    BuildSummary s;
+    s.target = targetKey;
+    s.error = true;
+    summaries.push_back(s);
+    stopRun = true;
+    return;
   }
   afterBuild(copy);
 }
@@ -2020,6 +2102,7 @@ void Run::afterBuild(const ValueType& result) {
 void Run::execute() {
   load();
   for (auto& op : plan.geta("history")) {
+    if (stopRun) break;
     std::string kind = op.gets("op");
     if (kind == "build") {
       int k = (int)op.getn("k");
@@ -2421,6 +2504,11 @@ public:
         total.counters["schedules_with_cancellation"]++;
         continue;
       }
+      if (p.error || q.error) {
+        // a database call failed (injected): which rule it hit depends on the completion order; only coming back is judged
+        total.counters["schedules_with_db_fault"]++;
+        continue;
+      }
       std::string what;
       if (p.ok != q.ok || p.result != q.result) what = "result";
       else if (p.executed != q.executed) what = "set of executed rules";
@@ -2540,6 +2628,10 @@ EngineFeatures featuresFor(const std::string& property, const runner::GenOptions
     f.resig = false;
     f.reprog = false;
     f.clientVersions = true;
+    // a build abandoned because of a cycle is the one way a C client sees a build stop early; what the same engine
+    // reports in later builds must still match
+    f.cycles = true;
+    f.cyclePermille = 150;
   } else if (property == "C07") {
     f.cycles = true;
     f.cyclePermille = 700;
